@@ -676,12 +676,16 @@ class DataType(object):
 
         # Because we do not allow whitespace in base64 values,
         # we use a pattern to restrict the data type.
-        return e.data(
+        element = e.data(
             e.param('1', name='minLength'),
-            e.param(split_data_type[1], name='maxLength'),
             e.param(r'\S*', name='pattern'),
             type='base64Binary'
         )
+        if int(split_data_type[1]) > 0:
+            # A maximum length of zero means that the length is not limited
+            etree.SubElement(element, 'param', name='maxLength').text = split_data_type[1]
+
+        return element
 
     def _generate_schema_boolean(self):
         e = ElementMaker()
